@@ -9,7 +9,7 @@ ALL = ["C%02d" % i for i in range(1, 21)]
 # pid -> dict(text, note, technique, design_ref, engine)
 CHECKS = {}
 
-HOOK_COMMITS = []
+HOOK_COMMITS = ["be4b9b8dcb68dc53ede79ccdba22a139e7d06988"]
 
 
 SPEC_DIRS = {"C01": "RaceDriver", "C07": "RaceDriver", "C09": "RaceDriver", "C06": "Throughput", "C15": "BranchMatch"}
@@ -17,7 +17,7 @@ SPEC_DIRS = {"C01": "RaceDriver", "C07": "RaceDriver", "C09": "RaceDriver", "C06
 
 # legs / alphabets added after the first build, per property (kept short; details in DESIGN.md §10.2 and §11)
 ADDED = {
-    "C01": "clauses CompletedByEnds, CompletedByCuts, NoSpuriousFailure; scenarios W3Split/W3Early/TwoCB/TwoAny/Ragged and a generated family; blocking waits and unprojectable states handled; progress reporting on in half of the races.",
+    "C01": "real-race leg (real `esrally race` under real Thespian recorded through the ESRALLY_VERIF_TRACE hooks, per-process logs merged by causality and validated by TLC against specs/RealRace; informational: recorded in the evidence, rejections are reported as drift); clauses CompletedByEnds, CompletedByCuts, NoSpuriousFailure; scenarios W3Split/W3Early/TwoCB/TwoAny/Ragged and a generated family; blocking waits and unprojectable states handled; progress reporting on in half of the races.",
     "C02": "a leg on the real Driver.start_benchmark (rows sent to workers partition the clients).",
     "C03": "exact ceil table for ingest-percentage; corpora loaded by the real loader; stale offset-table histories; adapter leg through the real AsyncIoAdapter (tasks sharing an operation); explicit corpora lists.",
     "C04": "sub-millisecond schedule offsets; element leg (real Allocator/AsyncIoAdapter); completion event inside a throttle wait; wire leg incl. responses cut after the headers and two target hosts; TLS errors among the error outcomes.",
@@ -39,7 +39,7 @@ ADDED = {
     "C20": "colliding task/operation names; locale leg (report file under LC_ALL=C).",
 }
 
-MORE_SPEC_DIRS = {"C09": ["TrackPrep"], "C01": ["ActorSem"], "C17": ["EsStore"], "C11": ["RaceDriver"], "C04": ["WireTiming"], "C18": ["WireTiming"]}
+MORE_SPEC_DIRS = {"C09": ["TrackPrep"], "C01": ["ActorSem", "RealRace"], "C17": ["EsStore"], "C11": ["RaceDriver"], "C04": ["WireTiming"], "C18": ["WireTiming"]}
 
 
 def check(pid, text, note, technique, engine="tlc", design_ref=None, spec=None):
@@ -335,7 +335,7 @@ def build():
         "setup_cmd": "./check --setup",
         "hooks": {
             "guard": "ESRALLY_VERIF_TRACE",
-            "enable": "checks import esrally from /repo's working tree; hooks (if any) are active only when ESRALLY_VERIF_TRACE=<dir> is set by the harness",
+            "enable": "checks import esrally from /repo's working tree; the hooks (esrally/utils/veriftrace.py + one-line calls in esrally/driver/driver.py) are active only when ESRALLY_VERIF_TRACE=<dir> is set, which only the real-race leg (harness/extras/realrace.py, run by C01) does for the esrally processes it starts; all simulated legs remove the variable",
             "baseline_off_cmd": "cd /repo && env -u ESRALLY_VERIF_TRACE /venv/bin/python -m pytest -ra -q -p no:cacheprovider --timeout=900 --continue-on-collection-errors",
             "source_commits": HOOK_COMMITS,
             "add_only": True,
